@@ -88,3 +88,24 @@ pub fn raise_fd_limit() {
         }
     }
 }
+
+/// True when every thread of this process except the caller is sleeping (state S/T/Z in
+/// /proc/self/task/<tid>/stat): nobody is running, runnable or in disk wait.
+pub fn other_threads_all_sleeping() -> bool {
+    let me = unsafe { libc::syscall(libc::SYS_gettid) } as i64;
+    let Ok(rd) = std::fs::read_dir("/proc/self/task") else { return false };
+    for e in rd.flatten() {
+        let name = e.file_name();
+        let Some(tid) = name.to_str().and_then(|s| s.parse::<i64>().ok()) else { continue };
+        if tid == me {
+            continue;
+        }
+        let Ok(stat) = std::fs::read_to_string(e.path().join("stat")) else { continue };
+        let Some(pos) = stat.rfind(')') else { continue };
+        let state = stat[pos + 1..].trim_start().chars().next().unwrap_or('S');
+        if matches!(state, 'R' | 'D') {
+            return false;
+        }
+    }
+    true
+}
